@@ -322,6 +322,43 @@ fn check_view_order(sink: &mut Sink, c: &Case, p: &Params, evs: &[(String, Ev)])
 
 pub const XML_URI: &str = "http://www.w3.org/XML/1998/namespace";
 
+/// Decode an attribute-value literal the way an XML processor does (predefined entities and
+/// character references) — independent of the crate's own decoder.
+fn unescape_value(s: &str) -> String {
+    let mut out = String::new();
+    let mut rest = s;
+    while let Some(i) = rest.find('&') {
+        out.push_str(&rest[..i]);
+        let tail = &rest[i..];
+        match tail.find(';') {
+            Some(j) => {
+                let ent = &tail[1..j];
+                let c = match ent {
+                    "amp" => Some('&'),
+                    "lt" => Some('<'),
+                    "gt" => Some('>'),
+                    "quot" => Some('"'),
+                    "apos" => Some('\''),
+                    _ if ent.starts_with("#x") => u32::from_str_radix(&ent[2..], 16).ok().and_then(char::from_u32),
+                    _ if ent.starts_with('#') => ent[1..].parse::<u32>().ok().and_then(char::from_u32),
+                    _ => None,
+                };
+                match c {
+                    Some(c) => out.push(c),
+                    None => out.push_str(&tail[..=j]),
+                }
+                rest = &tail[j + 1..];
+            }
+            None => {
+                out.push_str(tail);
+                rest = "";
+            }
+        }
+    }
+    out.push_str(rest);
+    out
+}
+
 fn split_qname(q: &str) -> (Option<&str>, &str) {
     match q.find(':') {
         Some(i) => (Some(&q[..i]), &q[i + 1..]),
@@ -382,7 +419,11 @@ fn check_names(sink: &mut Sink, c: &Case, p: &Params, toks: &[Tok]) -> bool {
                             let lhs = &text[..eq];
                             let uri = if eq + 2 <= text.len() && text.ends_with('"') && text.len() >= eq + 3 { &text[eq + 2..text.len() - 1] } else { "" };
                             let pfx = lhs.strip_prefix("xmlns:").unwrap_or("");
-                            frame.push((pfx.to_string(), uri.to_string()));
+                            if uri.contains('"') || uri.contains('<') {
+                                // the literal ends at the first quote for an XML processor
+                                fail(sink, "C10", "C10:namespace-uri-written-unescaped", &format!("declaration token {:?} contains a raw quote or '<' in the URI", text), c, p);
+                            }
+                            frame.push((pfx.to_string(), unescape_value(uri)));
                         }
                         Ev::AT(n, _) => attrs.push((*n, text[..text.find('=').unwrap_or(text.len())].to_string())),
                         _ => {}
@@ -486,6 +527,12 @@ pub fn check(c: &mut Case, p: &Params, obs: &Observed, sink: &mut Sink) {
                 base_reparse = reparse(c.xot, &original, &text);
                 match &base_reparse {
                     Some(Ok(back)) if *back == original => sink.stat("oracle.C10.reparse-equal"),
+                    Some(_) if names_ok && text.contains("xmlns") && text.contains("urn:q&quot;&lt;&amp;") => {
+                        // the serialiser escaped the URI; the crate's parser keeps the references
+                        // in namespace URIs undecoded (a parser matter: C02), so no round trip here
+                        sink.stat("oracle.C10.reparse-skipped-parser-keeps-references-in-namespace-uri");
+                        fail(sink, "C02", "C02:references-in-namespace-uri-not-decoded", &format!("{:?}: the parser interns the raw attribute text of xmlns declarations", short(&text)), c, p);
+                    }
                     Some(r) if names_ok => {
                         let uses_weird = text.contains(WEIRD_URI);
                         let sig = if uses_weird { "C10:namespace-uri-written-unescaped" } else { "C10:reparse-differs" };
